@@ -12,11 +12,23 @@
 //	(iv)  for upload tars every header field x a per-field alphabet (checksum
 //	      recomputed), and whole-stream variants (swap/duplicate/drop members...),
 //	(v)   thorough: pairs of field mutations in the first 512 bytes of the tiny seeds,
+//	(vi)  both tiers: for every group of fields the format couples (start of a
+//	      chain / its links / its element count, an offset and the count or
+//	      length found there, two copies of a size: coupled.go) every pair
+//	      (where-field := integer alphabet + ids of the chain's own elements)
+//	      x (how-many-field := integer alphabet); the compound-file seeds also
+//	      in a variant whose FAT sector list continues in an MSAT sector chain,
 //
 // and runs every mutated input through every parser entry point of its kind in
 // rlimited worker subprocesses. Oracle: no panic (any goroutine), no process
 // death, no heap growth beyond 64 MiB + 64 x input, no entry running longer
 // than 60 s. Returned errors and "not signed" are the expected outcomes.
+//
+// The server entry point as deployed (server.go): one upload stream of every
+// distinct outcome of the sign entries, per seed, is POSTed to a real daemon
+// (server/daemon.New: http.Server with the configured timeouts) running in a
+// child process, each followed by a well-formed signing request. Oracle: the
+// process is still there and answers the well-formed request.
 package main
 
 import (
@@ -65,6 +77,8 @@ const (
 	allocBase    = 64 << 20
 	allocFactor  = 64
 	hangInputMax = 64 << 10
+	// quick tier: thorough-only package seeds up to this size take part with their coupled fields
+	quickCoupledMax = 256 << 10
 )
 
 var hangTimeout = 60 * time.Second
@@ -117,11 +131,17 @@ type engine struct {
 		desc string
 	}
 	wseq int64
+	// server phase: (seed, sign entry, outcome) -> first case with that outcome
+	srvSel map[string]srvInput
 }
 
 func main() {
 	if os.Getenv("C11_WORKER") != "" {
 		workerMain()
+		return
+	}
+	if addr := os.Getenv("C11_SERVER"); addr != "" {
+		serverChild(addr)
 		return
 	}
 	if spec := os.Getenv("C11_SCALE"); spec != "" {
@@ -154,7 +174,7 @@ func main() {
 		}
 		run.Finish()
 	}
-	e := &engine{run: run, tmp: tmp, workers: runtime.NumCPU(), findings: map[string]*finding{}, errSigs: map[string]struct{}{}, confirmed: map[string]int{}, allocMin: map[string]uint64{}, allocSite: map[string]string{}}
+	e := &engine{run: run, tmp: tmp, workers: runtime.NumCPU(), findings: map[string]*finding{}, errSigs: map[string]struct{}{}, confirmed: map[string]int{}, allocMin: map[string]uint64{}, allocSite: map[string]string{}, srvSel: map[string]srvInput{}}
 	if v := os.Getenv("C11_WORKERS"); v != "" {
 		e.workers, _ = strconv.Atoi(v)
 	}
@@ -206,8 +226,17 @@ func main() {
 		return
 	}
 	e.execute()
+	// the server phase (one client, one daemon) runs beside the scaling phase (one child at a time)
+	var srvDone chan struct{}
+	if os.Getenv("C11_NO_SERVER") == "" {
+		srvDone = make(chan struct{})
+		go func() { defer close(srvDone); e.serverPhase() }()
+	}
 	if !replayOnly {
 		scalePhase(run)
+	}
+	if srvDone != nil {
+		<-srvDone
 	}
 	e.report()
 	finish()
@@ -370,13 +399,20 @@ func (e *engine) enumerate() {
 		Raw     map[string]int `json:"enumerated_by_class"`
 		Kept    map[string]int `json:"kept_after_dedup_by_class"`
 		Cases   int            `json:"cases"`
+		Couples string         `json:"coupled_field_groups,omitempty"`
 		Entries []string       `json:"entries"`
 	}
 	var stats []seedStat
 	only := os.Getenv("C11_ONLY")
 	for _, s := range e.seeds {
+		// quick tier: a package seed that is otherwise thorough-only (up to 256 KiB)
+		// still gets the coupled-field mutations of its format, and nothing else
+		coupledOnly := s.CoupledOnly
 		if !thorough && !s.Quick {
-			continue
+			if s.Kind != "pkg" || s.IdentityOnly || len(s.data) > quickCoupledMax || len(couples(s.data, s.Layout)) == 0 {
+				continue
+			}
+			coupledOnly = true
 		}
 		if only != "" && !strings.Contains(s.Name, only) {
 			continue
@@ -394,7 +430,21 @@ func (e *engine) enumerate() {
 		if !s.IdentityOnly {
 			set := mutate.NewSet(s.data)
 			var regions []mutate.Region
+			var cs []couple
+			if s.Kind == "tar" {
+				cs = tarCouples(s)
+			} else {
+				cs = couples(s.data, s.Layout)
+			}
 			switch {
+			case coupledOnly:
+				for _, c := range cs {
+					for _, l := range [][]mutate.IntSite{c.Where, c.Count} {
+						for _, x := range l {
+							regions = append(regions, mutate.Region{Off: x.Off, Len: x.Width, Name: "coupled:" + c.Name, Base: x.Off, Step32: x.Width, Step16: x.Width, Core: true})
+						}
+					}
+				}
 			case s.Kind == "tar":
 				regions = tarRegions(s, thorough)
 			case thorough:
@@ -406,7 +456,9 @@ func (e *engine) enumerate() {
 			// (i) truncation: every prefix length; quick tier, seeds > 1 KiB: every
 			// length inside/at the end of a quick region plus every 64th other
 			stride := 1
-			if !thorough && len(s.data) > mutate.TinySeed {
+			if coupledOnly {
+				stride = len(s.data) // lengths inside or at the end of a coupled field only
+			} else if !thorough && len(s.data) > mutate.TinySeed {
 				stride = 64
 			} else if thorough && len(s.data) > hangInputMax {
 				stride = 16 // seeds > 64 KiB: every length in a structural region, every 16th elsewhere
@@ -415,10 +467,16 @@ func (e *engine) enumerate() {
 			// (ii) bytes
 			set.Bytes(regions)
 			// (iii) integers; quick: only plausible length/offset/count fields
-			set.Ints(mutate.IntSites(s.data, regions, !thorough))
+			set.Ints(mutate.IntSites(s.data, regions, !thorough && !coupledOnly))
 			// (iii') algorithm identifiers: every registered digest / signature
 			// algorithm OID of the same encoded length at every place one occurs
-			set.OIDs()
+			if !coupledOnly {
+				set.OIDs()
+			}
+			// (vi) coupled fields: every pair (where-field, how-many-field) of every
+			// group the format defines, both tiers
+			st.Couples = coupleStats(cs)
+			addCouples(set, len(s.data), cs)
 			// (iv) tar header fields
 			if s.Kind == "tar" {
 				var names []string
@@ -505,6 +563,23 @@ func tarRegions(s *Seed, thorough bool) []mutate.Region {
 	return mutate.Clip(rs, len(s.data))
 }
 
+// tarCouples: the coupled fields of the inner format of every member.
+func tarCouples(s *Seed) []couple {
+	var cs []couple
+	for _, h := range mutate.TarHeaders(s.data) {
+		off := h.Off + 512
+		if off+h.Size > len(s.data) || h.Size == 0 {
+			continue
+		}
+		inner := s.Aux["inner"]
+		if h.Name == "zipdir.bin" {
+			inner = "zip"
+		}
+		cs = append(cs, shiftCouples(couples(s.data[off:off+h.Size], inner), off)...)
+	}
+	return cs
+}
+
 // zipDirLayout: a bare central directory followed by the end records (the
 // zipdir.bin upload member): entries are located by walking from offset 0.
 func zipDirLayout(b []byte) []mutate.Region {
@@ -549,7 +624,7 @@ type workerResult struct {
 }
 
 // spawn runs one worker over jobs and feeds result lines to e.onResult.
-func (e *engine) spawn(jobs []job, confirm bool, onResult func(f []string)) *workerResult {
+func (e *engine) spawn(jobs []job, confirm bool, onResult func(f []string), extraEnv ...string) *workerResult {
 	id := atomic.AddInt64(&e.wseq, 1)
 	jobFile := filepath.Join(e.tmp, fmt.Sprintf("jobs-%d", id))
 	progFile := filepath.Join(e.tmp, fmt.Sprintf("prog-%d", id))
@@ -582,6 +657,7 @@ func (e *engine) spawn(jobs []job, confirm bool, onResult func(f []string)) *wor
 	if confirm {
 		env = append(env, "C11_CONFIRM=1")
 	}
+	env = append(env, extraEnv...)
 	cmd.Env = env
 	cmd.Stdout = nil
 	cmd.Stderr = ef
@@ -872,6 +948,9 @@ func (e *engine) onResult(f []string, suspects *[]allocSuspect) {
 	e.mu.Lock()
 	e.sigHash[id] = fnv(e.sigHash[id], fmt.Sprintf("%d:%s:%s;", en, class, sig))
 	e.entryDone[id] |= 1 << en
+	if isSignEntry(entry) && class != "harness-error" && talloc <= uint64(allocBase+allocFactor*size) {
+		e.noteSignOutcome(seed.Idx, id, en, class, sig)
+	}
 	if class != "ok" {
 		e.errSigs[fmt.Sprintf("%d|%s|%s|%s", seed.Idx, entry, class, sig)] = struct{}{}
 	}
@@ -1080,7 +1159,7 @@ func runawaySite(stderr string) (top string, frames []string, msg string) {
 }
 
 // handleRunaway: the worker stopped an entry whose heap kept growing past
-// 1.5 GiB. Believed after it does the same alone in a fresh worker.
+// runawayLimit. Believed after it does the same alone in a fresh worker.
 func (e *engine) handleRunaway(id, entry int, stderr string) {
 	ename := e.entryName(id, entry)
 	seed := e.seeds[e.cases[id].seed]
@@ -1118,7 +1197,7 @@ func (e *engine) handleRunaway(id, entry int, stderr string) {
 	e.confirmed[key]++
 	e.mu.Unlock()
 	e.run.Outcome(entryClass(ename) + ":alloc")
-	e.addFinding(key, ename, id, size, fmt.Sprintf("heap kept growing: more than 1.5 GiB held for a %d-byte input when the worker stopped it (%s); bound %d MiB", size, strings.TrimPrefix(msg, "C11-RUNAWAY "), (allocBase+allocFactor*size)>>20), frames, "reproduced alone in a fresh worker")
+	e.addFinding(key, ename, id, size, fmt.Sprintf("heap kept growing: more than %d MiB held for a %d-byte input when the worker stopped it (%s); bound %d MiB", runawayLimit>>20, size, strings.TrimPrefix(msg, "C11-RUNAWAY "), (allocBase+allocFactor*size)>>20), frames, "reproduced alone in a fresh worker")
 }
 
 func (e *engine) typeOf(id int) string {
@@ -1380,6 +1459,8 @@ func (e *engine) report() {
 		"truncation":           map[bool]string{false: "quick: every prefix length for seeds <= 1 KiB; larger seeds: every length inside or at the end of a quick region plus every 64th length", true: "thorough: every prefix length for seeds <= 64 KiB; larger seeds: every length inside or at the end of a structural region plus every 16th length"}[thorough],
 		"tar":                  "every header field x per-field alphabet with recomputed checksum; whole-stream variants swap/duplicate/drop/trailing member, missing EOF blocks, pax override; byte and integer mutations of small member bodies (central directory copy) and of the inner format structures",
 		"pairs":                map[bool]string{false: "none in quick", true: "all pairs of LE field mutations among the first 40 plausible fields in the first 512 bytes of seeds <= 2 KiB"}[thorough],
+		"coupled_fields":       fmt.Sprintf("both tiers (quick: also for the package seeds <= 256 KiB that are otherwise thorough-only, which then get these mutations and the single-field mutations of the same fields only): per seed, every group of coupled fields of its format (see coupled_field_groups per seed; chains: the start field and the link fields of the first %d elements): all pairs (where-field := integer alphabet + the ids of the chain's first %d elements) x (count/length field := integer alphabet); formats: CFB (MSAT, mini-FAT and directory chains, FAT list, directory entries), ZIP (end record, first central header, APK signing block), PE, CAB, XAR, UDIF + code signature, Mach-O, RPM, and the same inside upload-tar members", coupleMaxChain, coupleMaxChain),
+		"server":               fmt.Sprintf("real daemon in a child process (RLIMIT_AS 4 GiB); bodies: per (seed, sign entry, outcome class + normalised error text / panic site) the first enumerated input whose entry ended regularly within the allocation bound; each body followed by one well-formed request; the phase stops after %d dead servers; request timeout = hang bound", serverMaxDeaths),
 		"alloc_bound":          "heap (HeapSys) growth in a fresh worker > 64 MiB + 64 x input size; screened by TotalAlloc per entry",
 		"hang_bound_s":         hangTimeout.Seconds(),
 		"address_space_limit":  "RLIMIT_AS 4 GiB per worker, GOMEMLIMIT unset",
@@ -1388,8 +1469,9 @@ func (e *engine) report() {
 		"worker_processes":     atomic.LoadInt64(&e.wseq),
 		"entry_points_by_kind": kindEntries,
 	})
-	run.Rule("case = (seed, mutation) de-duplicated by effect (mutations producing identical bytes count once; no-ops dropped); every case is run through every entry point of its kind, each (case, entry) execution is one evaluation. distinct_nontrivial = cases whose tuple of per-entry outcomes (ok / not-signed / normalised error text / panic site / abnormal end) differs from the tuple of the unmutated seed, i.e. the mutation moved at least one entry point onto a different path")
+	run.Rule("case = (seed, mutation) de-duplicated by effect (mutations producing identical bytes count once; no-ops dropped); every case is run through every entry point of its kind, each (case, entry) execution is one evaluation. distinct_nontrivial = cases whose tuple of per-entry outcomes (ok / not-signed / normalised error text / panic site / abnormal end) differs from the tuple of the unmutated seed, i.e. the mutation moved at least one entry point onto a different path. Server phase: case = one upload stream per (seed, sign entry, distinct outcome) sent to a real daemon process and followed by a well-formed signing request; one evaluation each; non-trivial when the daemon answers the stream with a status other than 2xx; the oracle is the statement's: the process must not end and must answer the request that follows")
 	run.Assume("the module a byte string is presented to is the seed's module (the server takes sigtype from the request, `relic sign -T` from the command line); magic detection is exercised as its own entry point")
+	run.Assume("server phase: the daemon listens without TLS on loopback and takes the client certificate from a trusted proxy's Ssl-Client-Cert header (a deployment relic supports); the handler chain and the http.Server timeouts are the ones daemon.New builds from the configuration defaults. A body whose sign entry died, hung or broke the allocation bound in the engine is reported under the engine's key and not sent to the daemon")
 	run.Assume("goroutines that stay blocked after an entry returns are leaks, not crashes, and are out of scope")
 	run.Assume("certloader.ParsePKCS12 is not an entry point here: its cost is governed by the KDF iteration count inside the third-party decoder; PKCS#12 seeds are fed to ParseX509Certificates / ParseAnyPrivateKey")
 	run.Assume("Transformer.Apply (patching the result into the mutated file) is not exercised here (C12/C13)")
